@@ -89,3 +89,153 @@ Proof.
   split; [vm_compute; reflexivity|]. split; [vm_compute; auto|].
   unfold survives. cbn [s_key]. rewrite overwrite_by_smaller_lost. discriminate.
 Qed.
+
+(* ------------------------------------------------------------------------------------------------------------
+   Part 3. Exhaustive sweep of a finite family of workloads: where exactly does crash consistency fail?
+   Family: 8 slots of 2 payload bytes, two keys (filenos 1 and 2), operations = store of a fresh object of 1..6
+   stream bytes (1..3 slots) under one of the keys, or purge of a key; ALL workloads of at most [len] operations, ALL
+   crash points at write boundaries, both keys queried.
+   ------------------------------------------------------------------------------------------------------------ *)
+Fixpoint split_n (P : Z) (ss : list session) (n : nat) : list (session * nat) :=
+  match ss with
+  | [] => []
+  | s :: r => (s, Nat.min n (nwrites P s)) :: split_n P r (n - nwrites P s)
+  end.
+
+Definition completed_b (P : Z) (ss : list session) (n : nat) (s : session) : bool :=
+  existsb (fun sm => (s_obj (fst sm) =? s_obj s) && (snd sm =? nwrites P (fst sm))%nat) (split_n P ss n).
+
+Fixpoint atoms_eqb (a b : list atom) : bool :=
+  match a, b with
+  | [], [] => true
+  | x :: a', y :: b' => atom_eqb x y && atoms_eqb a' b'
+  | _, _ => false
+  end.
+
+(* the hit for key k after the crash is the full stream of a completed session with that key (or there is no hit) *)
+Definition hit_ok_b (N P : Z) (ss : list session) (n : nat) (k : key) : bool :=
+  match hit_after N P ss n None k with
+  | None => true
+  | Some c => existsb (fun s => completed_b P ss n s && key_eqb (s_key s) k && atoms_eqb c (full_stream s)) ss
+  end.
+
+(* the session whose writes are cut by the crash, if any *)
+Definition inflight (P : Z) (ss : list session) (n : nat) : option session :=
+  match find (fun sm => (0 <? snd sm)%nat && (snd sm <? nwrites P (fst sm))%nat) (split_n P ss n) with
+  | Some sm => Some (fst sm)
+  | None => None
+  end.
+
+(* "a same-key overwrite is in flight at the crash": the cut session's key was stored before *)
+Fixpoint stored_before (ss : list session) (s : session) : bool :=
+  match ss with
+  | [] => false
+  | x :: r => if s_obj x =? s_obj s then false else key_eqb (s_key x) (s_key s) || stored_before r s
+  end.
+
+Definition overwrite_inflight (P : Z) (ss : list session) (n : nat) : bool :=
+  match inflight P ss n with Some s => stored_before ss s | None => false end.
+
+(* the family *)
+Definition fam_keys : list key := [(1, 0); (2, 0)].
+Definition fam_ops (o : Z) : list op :=
+  flat_map (fun k => OPurge k :: map (fun len => OStore k o o len 1 0) [1; 2; 3; 4; 5; 6]) fam_keys.
+Fixpoint fam_workloads (len : nat) (o : Z) : list (list op) :=
+  match len with
+  | O => [[]]
+  | S l => [] :: flat_map (fun x => map (cons x) (fam_workloads l (o + 1))) (fam_ops o)
+  end.
+
+Definition sweep_one (ops : list op) : bool :=
+  let ss := sessions_of 8 2 ops in
+  let total := length (all_writes 2 ss) in
+  forallb (fun n => overwrite_inflight 2 ss n || forallb (hit_ok_b 8 2 ss n) fam_keys) (seq 0 (S total)).
+
+Definition sweep (len : nat) : bool := forallb sweep_one (fam_workloads len 1).
+
+(* ------------------------------------------------------------------------------------------------------------
+   Part 4. Workloads that write every slot at most once: for ALL such workloads and ALL crash points at write
+   boundaries, recovery makes readable exactly the sessions whose last write completed, with their full streams.
+   ------------------------------------------------------------------------------------------------------------ *)
+
+(* ---- 4.1 lists ---- *)
+Lemma zseq_in : forall n a c, In c (zseq a n) <-> a <= c < a + Z.of_nat n.
+Proof.
+  induction n as [|n IH]; intros a c; cbn [zseq In].
+  - lia.
+  - rewrite IH. lia.
+Qed.
+
+Lemma zseq_length : forall n a, length (zseq a n) = n.
+Proof. induction n as [|n IH]; intros a; cbn [zseq length]; [reflexivity| now rewrite IH]. Qed.
+
+Lemma firstn_zseq : forall n m a, (n <= m)%nat -> firstn n (zseq a m) = zseq a n.
+Proof.
+  induction n as [|n IH]; intros m a Hle; [reflexivity|].
+  destruct m as [|m]; [lia|]. cbn [zseq firstn]. rewrite IH by lia. reflexivity.
+Qed.
+
+Lemma stream_length : forall o len, length (stream o len) = Z.to_nat len.
+Proof. intros. unfold stream. now rewrite map_length, zseq_length. Qed.
+
+Lemma firstn_stream : forall o len n, 0 <= n <= len -> firstn (Z.to_nat n) (stream o len) = stream o n.
+Proof. intros o len n H. unfold stream. rewrite firstn_map, firstn_zseq by lia. reflexivity. Qed.
+
+Lemma is_run_firstn : forall n o off l,
+  firstn n l = map (fun i => (o, i)) (zseq off n) -> is_run o off n l = true.
+Proof.
+  induction n as [|n IH]; intros o off l H; [reflexivity|].
+  destruct l as [|a l]; [discriminate H|]. cbn [firstn zseq map] in H. injection H as Ha Hl.
+  cbn [is_run]. rewrite (IH _ _ _ Hl). subst a. unfold atom_eqb. cbn [fst snd]. rewrite !Z.eqb_refl. reflexivity.
+Qed.
+
+Lemma parse_meta_stream : forall oi o info buf,
+  oi o = Some info -> 0 < o_mlen info ->
+  firstn (Z.to_nat (o_mlen info)) buf = stream o (o_mlen info) ->
+  parse_meta oi buf = Some info.
+Proof.
+  intros oi o info buf Hoi Hm Hf. unfold parse_meta.
+  assert (Hrun : is_run o 0 (Z.to_nat (o_mlen info)) buf = true) by (apply is_run_firstn; exact Hf).
+  destruct buf as [|[o' i'] buf'].
+  - unfold stream in Hf. destruct (Z.to_nat (o_mlen info)) eqn:E; [lia| discriminate Hf].
+  - unfold stream in Hf. destruct (Z.to_nat (o_mlen info)) eqn:E; [lia|].
+    cbn [firstn zseq map] in Hf. injection Hf as Ho Hi _. subst o' i'.
+    rewrite Hoi. assert (0 <? o_mlen info = true) as -> by lia. rewrite E, Hrun. reflexivity.
+Qed.
+
+Lemma zeroed_false : forall o i buf, 0 < o -> zeroed ((o, i) :: buf) = false.
+Proof.
+  intros o i buf Ho. unfold zeroed. cbn [firstn forallb fst].
+  assert (o =? 0 = false) as -> by lia. cbn [andb]. apply andb_false_r.
+Qed.
+
+Lemma read_area_exact : forall a, read_area (Z.of_nat (length a)) a = a.
+Proof.
+  intros a. unfold read_area. rewrite Nat2Z.id, firstn_all, Nat.sub_diag. cbn [repeat]. apply app_nil_r.
+Qed.
+
+(* ---- 4.2 chunks ---- *)
+Lemma chunks_aux_concat : forall fuel p l, (0 < p)%nat -> (length l <= fuel)%nat -> concat (chunks_aux fuel p l) = l.
+Proof.
+  induction fuel as [|fuel IH]; intros p l Hp Hl.
+  - destruct l; [reflexivity| cbn [length] in Hl; lia].
+  - destruct l as [|a l]; [reflexivity|]. cbn [chunks_aux concat].
+    rewrite IH; [apply firstn_skipn| exact Hp|].
+    rewrite skipn_length. cbn [length] in *. lia.
+Qed.
+
+Lemma chunks_aux_sizes : forall fuel p l ch, (0 < p)%nat -> In ch (chunks_aux fuel p l) -> (0 < length ch <= p)%nat.
+Proof.
+  induction fuel as [|fuel IH]; intros p l ch Hp Hin; [destruct Hin|].
+  destruct l as [|a l]; [destruct Hin|]. cbn [chunks_aux In] in Hin. destruct Hin as [<- | Hin].
+  - rewrite firstn_length. cbn [length]. lia.
+  - eapply IH; eauto.
+Qed.
+
+Lemma chunks_aux_first : forall fuel p l ch r, chunks_aux fuel p l = ch :: r -> ch = firstn p l.
+Proof.
+  intros [|fuel] p l ch r H; [discriminate H|]. destruct l; [discriminate H|]. cbn [chunks_aux] in H. now injection H as <- _.
+Qed.
+
+Lemma chunks_nonempty : forall P l, l <> [] -> chunks P l <> [].
+Proof. intros P [|a l] H; [congruence|]. unfold chunks. cbn [length chunks_aux]. discriminate. Qed.
